@@ -279,7 +279,13 @@ func Load(ctx context.Context, wd string, env []string, tags string, patterns []
 				ec.add(notePositionAll(fset.Position(obj.Pos()), errs)...)
 				continue
 			}
-			pset := item.(*ProviderSet)
+			pset, ok := item.(*ProviderSet)
+			if !ok {
+				// For example the literal wire.ProviderSet{}, which is read as a
+				// struct-literal provider.
+				ec.add(notePosition(fset.Position(obj.Pos()), fmt.Errorf("%v is not a provider set", obj)))
+				continue
+			}
 			// pset.Name may not equal name, since it could be an alias to
 			// another provider set.
 			id := ProviderSetID{ImportPath: pset.PkgPath, VarName: name}
